@@ -409,6 +409,96 @@ def concurrent_part(ck, sids, seed):
     return cases
 
 
+def coq_bevent(e):
+    return "%s %s" % ("BCreateDb" if e["t"] == "cdb" else "BShowDb", RES[e["r"]])
+
+
+def eval_boot(ck, name, cases, sids):
+    cats, defs, items = {}, [], []
+    for c in cases:
+        cloud = c["cfg"]["cloud"]
+        hosts = []
+        for h in c["final"]["hosts"]:
+            key = json.dumps([h["objs"], h["rows"]], sort_keys=True)
+            if key not in cats:
+                cats[key] = "cat_%d" % len(cats)
+                defs.append("Definition %s : cat := %s." % (cats[key], coq_cat(h)))
+            hosts.append(cats[key])
+        runs = []
+        for r in c["runs"]:
+            nb = 0
+            while nb < len(r["log"]) and r["log"][nb]["t"] in ("cdb", "sdb"):
+                nb += 1
+            runs.append("{| bo_os := %s; bo_ok := %s; bo_boot := [%s]; bo_items := %s |}" % (
+                coq_os(r.get("fault")), coq_bool(r["ok"]), "; ".join(coq_bevent(e) for e in r["log"][:nb]),
+                coq_log(r["log"][nb:], sids, cloud, sids.ids_of)))
+        items.append("{| bc_id := %d%%Z; bc_cfg := {| b_cfg := %s; b_default := %s; b_ttl0 := %s |}; bc_nhosts := %d%%nat; bc_runs := [%s];\n"
+                     "     bc_hosts := [%s]; bc_ver_tbl := %s; bc_vd_tbl := %s; bc_vers := %s; bc_exists := %s |}" % (
+                         c["id"], coq_cfg(c["cfg"]), coq_bool(c.get("default", False)), coq_bool(c.get("ttl0", False)), max(1, c.get("nhosts") or 1),
+                         ";\n    ".join(runs), "; ".join(hosts), coq_bool(c["final"]["ver_tbl"]), coq_bool(c["final"]["vd_tbl"]),
+                         coq_vers(c["final"]["vers"]), coq_bool(c.get("exists", False))))
+    txt = ("From Coq Require Import List String NArith ZArith Bool.\n"
+           "From Qryn Require Import model.Migrate gen.GenScripts.\nImport ListNotations.\n"
+           "Open Scope string_scope.\nOpen Scope list_scope.\nOpen Scope N_scope.\n"
+           + "\n".join(defs) + "\n"
+           "Definition cases : list (bcase) := [\n  " + ";\n  ".join(items) + "].\n"
+           "Definition M := Eval vm_compute in boot_mismatches gen_scripts gen_oncluster gen_sids cases.\nPrint M.\n"
+           "Definition V := Eval vm_compute in boot_violations gen_scripts gen_oncluster gen_sids cases.\nPrint V.\n")
+    rc, out = ck.coq_eval(name, txt)
+    if rc != 0:
+        return None, None, out
+    flat = " ".join(out.split())
+    m = re.search(r"M = (.*?) : list Z", flat)
+    v = re.search(r"V = (.*?) : list \(Z \* N\)", flat)
+    if not m or not v:
+        return None, None, out
+    mism = [int(x) for x in re.findall(r"-?\d+", m.group(1))]
+    viol = [(int(a), int(b)) for a, b in re.findall(r"\((-?\d+)(?:%Z)?, (\d+)(?:%N)?\)", v.group(1))]
+    return mism, viol, out
+
+
+def boot_part(ck, sids, seed, pool_file):
+    """the bootstrap path: the real ctrl.Init (InitDB, ConnectV2, UpgradeAll, upgradeDB, Update) through the real clickhouse-go
+    client against the fake server of harness/cmd/migrate/tcp.go, compared with Migrate.init and judged by the oracle"""
+    bo_out = os.path.join(ck.work, "boot.jsonl")
+    rc, out = ck.go_run("migrate", ["--seed", seed, "--boot", ck.n(20, 400), "--errtexts", pool_file, "--out", bo_out])
+    if not ck.obligation("harness migrate ran (bootstrap: ctrl.Init over the fake ClickHouse TCP server)", rc == 0, out[-1500:]):
+        return []
+    cases = [json.loads(l) for l in open(bo_out) if l.strip()]
+    srv = [(c["id"], c["srv_errs"][:2]) for c in cases if c.get("srv_errs")]
+    ck.obligation("the fake TCP server understood every packet of the real client", not srv, "protocol problems (case id, messages): %s" % srv[:3])
+    mism, viol = [], []
+    shard = 200
+    for k in range(0, len(cases), shard):
+        m, v, out = eval_boot(ck, "C18_%s_%d_boot_%d" % (vcheck.repo_tag(), os.getpid(), k // shard), cases[k:k + shard], sids)
+        if m is None:
+            ck.obligation("bootstrap cases evaluated inside Coq", False, out[-1500:])
+            return cases
+        mism += m
+        viol += v
+    byid = {c["id"]: c for c in cases}
+    ck.obligation("correspondence: model init (bootstrap calls, Update's call log, return value / panic, final hosts, versions, database exists) = "
+                  "real ctrl.Init on %d cases" % len(cases), not mism, "mismatching case ids: %s" % mism[:10])
+    ck.obligation("bootstrap: the property's oracle accepts every observed history of ctrl.Init", not viol, "violating (case id, code): %s" % viol[:10])
+
+    def replay(c, kind, **kw):
+        d = {"property": "C18", "kind": kind, "entry": "ctrl.Init over the fake TCP server", "cfg": c["cfg"], "nhosts": c.get("nhosts") or 1,
+             "default": c.get("default", False), "ttl0": c.get("ttl0", False), "mode": c.get("class", ""), "faults": c["faults"],
+             "runs": [{"fault": r.get("fault"), "returned_nil": r["ok"], "err": r.get("err", ""), "calls": len(r["log"]), "last_calls": r["log"][-3:]} for r in c["runs"]],
+             "final_versions": c["final"]["vers"],
+             "replay": "write {\"cfg\":...,\"nhosts\":...,\"default\":...,\"ttl0\":...,\"faults\":...} of this file as one JSON line and run: harness migrate --boot-cases <file>"}
+        d.update(kw)
+        return d
+    if viol:
+        cid, code = min(viol, key=lambda x: (len(byid[x[0]]["faults"] or []), sum(len(r["log"]) for r in byid[x[0]]["runs"])))
+        ck.violation(replay(byid[cid], SPEC_CODE.get(code, "spec violation %d" % code)))
+    elif mism:
+        c = min((byid[i] for i in mism), key=lambda c: (len(c["faults"] or []), sum(len(r["log"]) for r in c["runs"])))
+        ck.violation(replay(c, "model/implementation disagree on the bootstrap path; the property's oracle still accepts all observed histories",
+                            broken="correspondence Migrate.init vs ctrl.Init"), no_input=True)
+    return cases
+
+
 SPEC_CODE = {1: "a version was recorded ahead of the scripts applied (e.g. for a script whose execution failed or completed on some hosts only), or a script was sent out of file order, "
                 "or a script whose version is already recorded was run again, or a statement that is in none of the streams took effect",
              2: "a start without failures did not complete (initialisation stays broken after the earlier failure)",
@@ -651,6 +741,7 @@ def run(ck):
                       "cfg": c["cfg"], "faults": c["faults"], "broken": "correspondence Migrate.update vs maintenance.Update"}, no_input=True)
 
     conc_cases = concurrent_part(ck, sids, ck.seed)
+    boot_cases = boot_part(ck, sids, ck.seed, pool_file)
 
     # coq/gen is shared by all runs: make sure no concurrent run (other VERIF_REPO) replaced the lists meanwhile
     now = json.load(open(os.path.join(vcheck.COQ, "gen", "GenScripts.json")))
@@ -672,7 +763,11 @@ def run(ck):
     for c in conc_cases:
         hist[c["class"]] = hist.get(c["class"], 0) + 1
         distinct.add(json.dumps([c["cfg"], c["sched"]], sort_keys=True))
-    ck.coverage["evaluations"] += len(cases) + len(conc_cases)
+    for c in boot_cases:
+        hist[c["class"]] = hist.get(c["class"], 0) + 1
+        if c["faults"]:
+            distinct.add(json.dumps(["boot", c["cfg"], c.get("nhosts"), c["faults"]], sort_keys=True))
+    ck.coverage["evaluations"] += len(cases) + len(conc_cases) + len(boot_cases)
     ck.coverage["distinct_nontrivial"] += len(distinct)
     ck.coverage["rule"] += ("cases = configuration (single / cloud / clustered / cloud+clustered, rarely the two inconsistent mixes; 1-3 hosts when clustered) x 0..5 interrupted starts, "
                             "each failing one database call (drawn among the calls that start would really make; 60% after the effect, 40% before; with several hosts 40% "
@@ -681,6 +776,9 @@ def run(ck):
                             "thorough tier adds every call x {before, after} of a first start in the four main configurations. "
                             "concurrent/* = two maintenance.Update goroutines on one fake database under a generated schedule (stale reader / lockstep / bursts, "
                             "1 call in 400 failing), killed when the schedule ends, then two undisturbed solo starts. "
+                            "boot/* = the real ctrl.Init (InitDB + UpgradeAll) through the real clickhouse-go client against a fake native-protocol server: clean starts, "
+                            "database default, ttl_days 0, every bootstrap call x {before, after} x {server exception, dropped connection} on a fresh and on a half-migrated "
+                            "database, plus generated histories of 1-3 interrupted starts (exceptions, dropped connections, partial ON CLUSTER), then two undisturbed starts. "
                             "non-trivial = at least one injected failure or a concurrent schedule; distinct by (configuration, failure list / schedule). ")
     ck.extra["input_distribution"] = hist
     ck.extra["distinct_failure_points_hit"] = len(points)
